@@ -364,6 +364,8 @@ class Dex:
                     if len(rs) == 1:
                         return rs[0][2]
                 return sym(f"promoted:{idx}")
+            if "static" in o:
+                return sym("static:" + o["static"])
             if "v" in o:
                 return from_json(o["v"])
             if "def" in o:
@@ -789,7 +791,13 @@ class Dex:
     def opaque_call(self, st, name, args, c):
         short = short_name(name)
         self.unmodelled[name] = self.unmodelled.get(name, 0) + 1
-        v = sym(f"{short}({', '.join(show(a) for a in args)})")
+        text = f"{short}({', '.join(show(a) for a in args)})"
+        if name.rsplit("::", 1)[-1] in STATEFUL:
+            # a stateful receiver: every call on the path yields a fresh value
+            k = sum(1 for o in st.opaque if o[0] == name and o[1] == tuple(args))
+            if k:
+                text += f"#{k + 1}"
+        v = sym(text)
         st.opaque.append((name, tuple(args), c.get("line")))
         return v
 
@@ -832,6 +840,9 @@ class Dex:
         v = sym(f"apply({show(f)}; {', '.join(show(a) for a in args)})")
         st.opaque.append(("apply", (f,) + tuple(args), None))
         yield st, v, False
+
+
+STATEFUL = {"next", "next_back", "pop", "pop_front", "pop_back", "next_key", "next_value", "next_element", "next_entry"}
 
 
 def strip_ref(ty):
@@ -1194,3 +1205,54 @@ def evaluate(paths, valuation):
         if good:
             out.append(p)
     return out
+
+
+def eval_bool(v, valuation):
+    """Truth of a boolean abstract value under `valuation(atom) -> bool | None`; None if undetermined."""
+    if v is None:
+        return None
+    if is_const(v):
+        return v[1] if isinstance(v[1], bool) else None
+    if v[0] == "atom":
+        return valuation(v[1])
+    if v[0] == "natom":
+        r = valuation(v[1])
+        return None if r is None else not r
+    if v[0] == "bop":
+        a, b = eval_bool(v[2], valuation), eval_bool(v[3], valuation)
+        if v[1] == "BitAnd":
+            if a is False or b is False:
+                return False
+            return True if a and b else None
+        if a is True or b is True:
+            return True
+        return False if a is False and b is False else None
+    if is_sym(v):
+        return valuation(("bool", v))
+    return None
+
+
+def value_atoms(v, out=None):
+    """Atoms occurring inside an abstract value."""
+    out = [] if out is None else out
+    if isinstance(v, tuple):
+        if v and v[0] in ("atom", "natom"):
+            out.append(v[1])
+        elif v and v[0] == "bop":
+            value_atoms(v[2], out)
+            value_atoms(v[3], out)
+        elif v and v[0] == "adt":
+            for _, x in v[3]:
+                value_atoms(x, out)
+        elif v and v[0] == "tup":
+            for x in v[1]:
+                value_atoms(x, out)
+    return out
+
+
+def all_atoms(paths):
+    for p in paths:
+        for a, _ in p.conds:
+            yield a
+        for a in value_atoms(p.ret):
+            yield a
